@@ -133,7 +133,7 @@ namespace OpenMEEG {
             const double y3 = Y3.norm();
             const double d  = det(Y1,Y2,Y3);
 
-            if (fabs(d)<1e-10)
+            if (fabs(d)<=1e-10*(y1*y2*y3))
                 return 0.0;
 
             const double omega = 2*atan2(d,(y1*y2*y3+y1*dotprod(Y2,Y3)+y2*dotprod(Y3,Y1)+y3*dotprod(Y1,Y2)));
